@@ -21,3 +21,15 @@ package util
 //@   property C17
 //@   requires r != nil
 //@   ensures !trustProxyHeaders ==> res == hostOfAddr(r.RemoteAddr)
+
+// ---- C20: clamping conversions used for everything a backend reports
+//@ func SafeInt32
+//@   property C20
+//@   safety
+//@   ensures res >= -2147483648 && res <= 2147483647
+//@   ensures value >= -2147483648 && value <= 2147483647 ==> res == value
+
+//@ func SafeFloat32
+//@   property C20
+//@   safety
+//@   ensures !isNaN(res) && !isInf(res)
